@@ -52,7 +52,7 @@ def propCsvText (o : Opts) (files : List (List Message)) (impl : String) : Strin
     | none => "fail:unparsable"
   | _ => "fail:unparsable"
 
-/-- KF-C19-7: a line of the CSV (before padding) of `scanLimit` = 65536 bytes or more, without the trim option -/
+/-- the class of KF-C19-7 (fixed): a line of the CSV (before padding) of `scanLimit` = 65536 bytes or more, without the trim option -/
 def hasLongLine (o : Opts) (files : List (List Message)) : Bool :=
   !o.trim && (toCsv o files).any fun l => (lineText tpDriver 0 l).length ≥ scanLimit
 
@@ -67,7 +67,7 @@ def hCsvText : Handler := fun r =>
         let has (c : Char) := flags.toList.contains c
         let opts : Opts := { raw := has 'r', verbose := has 'v', degrees := has 'd', trim := has 't' }
         if r.mode == .prop then propCsvText opts files r.impl
-        else if comparable opts.raw opts.degrees files && hasLongLine opts files then "KF-C19-7" else "-"
+        else "-"   -- no open finding (KF-C19-7 fixed in /repo)
       | _, _ => if r.mode == .kf then "-" else "n/a"
     | [] => if r.mode == .kf then "-" else "n/a"
   | .model =>
